@@ -11,7 +11,7 @@ WORDS = ["ash", "bell", "cove", "dune", "elm", "fog", "gate", "hill", "ivy", "je
 
 ALL_FEATURES = {"print", "glue", "tags", "icond", "iseq", "set", "temp", "block_if", "block_seq", "choices", "nested",
                 "labels", "fallback", "conds", "sticky", "counts", "turns", "loops", "tunnels", "threads", "choice_print",
-                "done", "functions", "choice_tags", "stitches", "typed_vars", "if_diverts", "cond_choices", "externals"}
+                "done", "functions", "choice_tags", "stitches", "typed_vars", "if_diverts", "cond_choices", "externals", "label_diverts"}
 
 
 # a logic line (~) that calls a function ends the line of whatever the function printed
@@ -60,6 +60,8 @@ class Gen:
         self.externs = []         # external functions of the host: dict(name, params, coef, add, safe)
         self.in_choice_text = False
         self.quiet = set()        # tunnels that print nothing
+        self.gather_labels = []   # labelled level-1 gathers: (full name, body of what follows the gather)
+        self.label_bodies = {}
 
     # ------------------------------------------------------------------ helpers
     def has(self, f):
@@ -397,6 +399,11 @@ class Gen:
             return "END"
         if allow_end and k < 0.3 and self.has("done"):
             return "DONE"
+        done_labels = [n for n, b in self.gather_labels if b is not None and n.split(".")[0] != "h0" and
+                       self.kinds.get(n.split(".")[0], "knot") == "knot"]
+        if self.has("label_diverts") and done_labels and self.after_choice and k > 0.88:
+            # to a labelled gather that has been written already (in this knot: going back - a choice has been taken since)
+            return r.choice(done_labels)
         if later and (k < 0.75 or not self.has("loops") or not self.after_choice):
             return r.choice(later)
         if self.has("loops") and plain and self.after_choice:
@@ -570,12 +577,18 @@ class Gen:
             glines.append(gmark.rstrip())
         if glabel:
             self.labels.append((self.cur, glabel))
+            if level == 1:
+                self.gather_labels.append(("%s.%s" % (self.cur, glabel), None))     # body number filled in below
         saved_ac, self.after_choice = self.after_choice, self.after_choice or fb_at < 0
         s, l = tail(ind)
         self.after_choice = saved_ac
         rest += s
         glines += l
         rest_b = self.body(rest)
+        if glabel and level == 1:
+            full = "%s.%s" % (self.cur, glabel)
+            self.gather_labels = [(n, rest_b if n == full else b) for n, b in self.gather_labels]
+            self.label_bodies[full] = rest_b
         return [{"k": "ch", "cs": cs, "rest": rest_b}], lines + glines
 
     def knot_body(self, kind):
@@ -785,7 +798,8 @@ class Gen:
         src += fsrc
         prog = {"bodies": self.bodies, "knots": self.knots, "globals": self.globals, "root": root, "owner": self.owner,
                 "ochain": self.ochain,
-                "externs": {x["name"]: {"coef": x["coef"], "add": x["add"], "safe": x["safe"]} for x in self.externs}}
+                "externs": {x["name"]: {"coef": x["coef"], "add": x["add"], "safe": x["safe"]} for x in self.externs},
+                "labels": {n: {"body": b} for n, b in self.label_bodies.items()}}
         return prog, "\n".join(src) + "\n"
 
 
